@@ -238,7 +238,8 @@ pub fn run_ws_case(case: &WsCase, oracles: WsOracles) -> CaseResult {
                         if pending.is_empty() {
                             None
                         } else {
-                            let i = *pick as usize % pending.len();
+                            // 255 = the most recently forwarded offer
+                            let i = if *pick == 255 { pending.len() - 1 } else { *pick as usize % pending.len() };
                             let (rcv, hash, from_pid, offer_id, rcv_pid) = pending[i];
                             if !*keep {
                                 pending.remove(i);
